@@ -10,7 +10,11 @@ ID = "C10"
 GENERATORS = ["server"]
 PROP_FILE = "C10"
 CASE_DEPS = ["theories/CorrServer.vo", "Generated/GenServer.vo"]
-RULE = ("serve: the C09 request-sequence generator biased to multi-unit contexts (hosted sets [1] [1,2] [0] [0,1] "
+RULE = ("serve: histories on a LIVE server object: delivered requests interleaved with edits of the hosted set between reads "
+        "(del context[u], context[u] = new slave context, re-registering a deleted id, replacing an object in place; 5 "
+        "enumerated histories x broadcast x ignore per front-end x framing, plus 1-3 random edits in 40% of the random "
+        "multi-unit scenarios, never before the first read, followed by broadcast and unicast requests), judged against the "
+        "routing table on the hosted set at the time of each request; otherwise the C09 request-sequence generator biased to multi-unit contexts (hosted sets [1] [1,2] [0] [0,1] "
         "[1,2,247] [17] [247] [2,1,17] [255] [0,247] [1,255] [3,2,1,0] + random ids; healthy / raising datastores), "
         "unit ids {0,1,2,17,247,255} + hosted + random 0..255, all flag combinations, on every front-end x framing "
         "combination (enumerated).  filter: exhaustive product front-end x framing (socket on all seven; RTU, ASCII, "
@@ -28,7 +32,7 @@ _BROKEN = []
 
 
 def suite_serve(tier):
-    s, broken = c09.suite_serve(tier, stream="C10.serve", chk=CHK, multi_bias=0.8)
+    s, broken = c09.suite_serve(tier, stream="C10.serve", chk=CHK, multi_bias=0.8, edit_prob=0.4)
     _BROKEN[:] = broken
     return s
 
